@@ -61,7 +61,7 @@ var c10race = newChk("C10", "contention",
 					ch <- r
 				}()
 				req, _ := ad.request(xid, 0)
-				r.serial, r.typ, r.isNil, r.err = ad.call(context.Background(), req, match, noMatcher)
+				r.serial, r.typ, r.isNil, _, r.err = ad.call(context.Background(), req, match, noMatcher)
 			}()
 			return ch
 		}
@@ -128,8 +128,8 @@ var c10race = newChk("C10", "contention",
 			if f := check("call A", r, 1); f != nil {
 				return f
 			}
-		case <-time.After(5 * time.Second):
-			return obs.Failf("C10/"+ad.name()+"/contention/stuck", "call A returns", "still running 5 s after release")
+		case <-time.After(60 * time.Second):
+			return obs.Failf("C10/"+ad.name()+"/contention/stuck", "call A returns", "still running 60 s after release")
 		}
 		for k, ch := range bChs {
 			select {
@@ -137,8 +137,8 @@ var c10race = newChk("C10", "contention",
 				if f := check(fmt.Sprintf("caller B%d", k), r, bx); f != nil {
 					return f
 				}
-			case <-time.After(5 * time.Second):
-				return obs.Failf("C10/"+ad.name()+"/contention/stuck", "caller B returns", "still running 5 s after release")
+			case <-time.After(60 * time.Second):
+				return obs.Failf("C10/"+ad.name()+"/contention/stuck", "caller B returns", "still running 60 s after release")
 			}
 		}
 		rec.Class(ad.name())
